@@ -121,9 +121,27 @@ def run(ctx):
     for i in range(600 if quick else 30000):
         n += 1
         cases.append('(case r%d schemarun text %s %s %s %s)' % (n, S(schematext.schema_text(r)), sx.dump(pols), sx.dump(store), sx.dump(req)))
+    # tags of every kind of type - scalars, entities, records, sets of those (the last three are not comparable with == in Go) - read through unions
+    # of two entity types, in both modes
+    tagkinds = {'S': 'String', 'L': 'Long', 'E': 'Team', 'R': '{ x: Long, t?: Team }', 'Q': 'Set<Team>', 'W': 'Set<{ x: Long }>', 'D': 'decimal'}
+    ttext = 'entity Team;\n' + ''.join('entity %s1 tags %s; entity %s2 tags %s;\n' % (k_, v_, k_, v_) for k_, v_ in sorted(tagkinds.items()))
+    allt = ', '.join('%s%d' % (k_, i_) for k_ in sorted(tagkinds) for i_ in (1, 2))
+    ttext += 'action a appliesTo { principal: [%s], resource: [%s], context: { flag: Bool } };\n' % (allt, allt)
+    tp = ['policies']
+    for k1 in sorted(tagkinds):
+        for k2 in sorted(tagkinds):
+            u_ = '(if context.flag then principal else resource)'
+            scope = 'permit(principal is %s1, action, resource is %s2)' % (k1, k2)
+            tp += [S(scope + ' when { %s.hasTag("k") && %s.getTag("k") == %s.getTag("k") };' % (u_, u_, u_)),
+                   S(scope + ' when { %s.getTag("k") == principal.getTag("k") };' % u_),
+                   S(scope + ' when { principal.hasTag("k") && resource.hasTag("k") && principal.getTag("k") == resource.getTag("k") };')]
+    tstore = ['store'] + [['ent', gen.vent('%s%d' % (k_, i_), 'x'), ['parents'], ['attrs'], ['tags']] for k_ in sorted(tagkinds) for i_ in (1, 2)]
+    n += 1
+    cases.append('(case tg%d schemarun text %s %s %s %s)' % (n, S(ttext), sx.dump(tp), sx.dump(tstore),
+                                                           sx.dump(['req', gen.vent('E1', 'x'), gen.vent('Action', 'a'), gen.vent('E2', 'x'), gen.vrec([('flag', gen.vbool(True))])])))
     for i in range(150 if quick else 3000):
         sch = schemagen.Schema(r)
-        ps = ['policies'] + [sch.policy(r.choice([1, 2, 3])) for _ in range(4)] + literal_policies()
+        ps = ['policies'] + [sch.policy(r.choice([1, 2, 3])) for _ in range(4)] + [sch.hazard_policy() for _ in range(3)] + literal_policies()
         n += 1
         cases.append('(case w%d schemarun text %s %s %s %s)' % (n, S(sch.text()), sx.dump(ps), sx.dump(sch.store()), sx.dump(sch.request())))
     ctx.rule = ('all 512 entity-type parent graphs on 3 names (self loops, cycles, diamonds) x sampled action-group graphs, all 512 common-type '
